@@ -361,6 +361,7 @@ def run(R):
     # ---- RETRY
     w = repo.fn("tools.aretry.decorator.wrapper")
     top = repo.fn("tools.aretry")
+    common.int_identity(R, "C14.RETRY", [w] + [repo.fn("tools." + nm) for nm in ("amap", "afilter", "afilterfalse", "asorted", "amax", "amin", "asift")])
     loops = [n for n in q.scope_nodes(w.node) if isinstance(n, ast.For)]
     R.need(len(loops) == 1, "idiom: aretry's wrapper is not a single for loop")
     lp = loops[0]
